@@ -249,6 +249,10 @@ class TB:
         out = []
         for (L, P) in self.mutrefs.get(l, []):
             out.append((L, P))
+            if P and P[0] == "*":
+                # a reborrow `&mut (*L).rest`: whatever L itself borrows is what is written through this reference
+                for (L2, P2) in self._borrow_targets(L, seen):
+                    out.append((L2, tuple(P2) + tuple(P[1:])))
         # copies / moves / reborrows: `_a = move _b`, `_a = &mut (*_b)`
         for site in self.defs.get(l, []):
             if site[0] == "stmt" and not site[3]:
@@ -795,7 +799,7 @@ class TB:
             return s
         # repo callee with MIR: inline
         inst = self.F.insts.get(key)
-        if key in call_aliases(self.F).values():
+        if key in {a_ for (a_, _m) in call_aliases(self.F).values()}:
             return ("call", key, args, None)       # a forwarding anchor stays a call of itself (see ALIAS_ANCHORS)
         if inst is not None and self.depth < MAX_INLINE and key not in self.stack:
             sm = summarize(self.F, inst, self.depth + 1, self.stack)
@@ -827,36 +831,46 @@ class TB:
 # forwards is an implementation choice (C20 checks that one of them is the table and the other forwards).  Calls of the
 # forwarding partner are written as calls of the named one.  (anchor key suffix, partner path, how the argument is passed)
 ALIAS_ANCHORS = [
-    ("<impl core::convert::From<multiboot2::tag_type::TagType> for u32>::from", "multiboot2::tag_type::TagType::val"),
+    "<impl core::convert::From<multiboot2::tag_type::TagType> for u32>::from",
+    "<impl core::convert::From<u32> for multiboot2::tag_type::TagType>::from",
 ]
 _alias_cache = {}
 
 
 def call_aliases(F):
-    """{partner key: anchor key} for the pairs where the *anchor forwards to the partner* (then the partner's calls appear in terms)"""
+    """{partner key: (anchor key, 'ref' | 'val')} for the anchors whose body is exactly one call of another repo function (the
+    partner) on the anchor's own argument - passed by reference or by value - whose result is returned unchanged.  Calls of the
+    partner then appear in terms wherever the anchor's summary is inlined; they are written back as calls of the anchor."""
     if id(F) in _alias_cache:
         return _alias_cache[id(F)]
     out = {}
     _alias_cache[id(F)] = out
-    for (anchor_sfx, partner_path) in ALIAS_ANCHORS:
+    for anchor_sfx in ALIAS_ANCHORS:
         ak = [k for k in F.insts if k.endswith(anchor_sfx)]
-        pk = [k for k, v in F.insts.items() if v.get("path") == partner_path or k == partner_path]
-        if len(ak) != 1 or len(pk) != 1:
+        if len(ak) != 1:
             continue
         body = F.insts[ak[0]]["body"]
         calls = [bb["t"] for bb in body["blocks"] if not bb.get("cleanup") and bb["t"]["k"] == "call"]
-        # the anchor's body is one call of the partner on its own argument, and it returns exactly that call's result
-        if len(calls) == 1 and M.callee_key(calls[0]) == pk[0] and not any(bb["t"]["k"] in ("switch", "assert") for bb in body["blocks"] if not bb.get("cleanup")):
-            b_ = M.Body(F.insts[ak[0]])
-            tb_ = TB(F, b_)
-            rb = b_.return_blocks
-            if len(rb) == 1:
-                rt = tb_.read(0, (), (rb[0], len(b_.stmts(rb[0]))))
-                while isinstance(rt, tuple) and rt and rt[0] == "zext":
-                    rt = rt[1]
-                if isinstance(rt, tuple) and rt and rt[0] == "call" and rt[1] == pk[0] and len(rt[2]) == 1 and \
-                        rt[2][0][0] == "ref" and rt[2][0][1][0] == "arg" and rt[2][0][1][1] == 1:
-                    out[pk[0]] = ak[0]
+        if len(calls) != 1 or any(bb["t"]["k"] in ("switch", "assert") for bb in body["blocks"] if not bb.get("cleanup")):
+            continue
+        pk = M.callee_key(calls[0])
+        pi = F.insts.get(pk) if pk else None
+        if pi is None or pi.get("crate") not in ("multiboot2", "multiboot2_common", "multiboot2_header"):
+            continue
+        b_ = M.Body(F.insts[ak[0]])
+        tb_ = TB(F, b_)
+        rb = b_.return_blocks
+        if len(rb) != 1:
+            continue
+        rt = tb_.read(0, (), (rb[0], len(b_.stmts(rb[0]))))
+        while isinstance(rt, tuple) and rt and rt[0] == "zext":
+            rt = rt[1]
+        if isinstance(rt, tuple) and rt and rt[0] == "call" and rt[1] == pk and len(rt[2]) == 1:
+            a = rt[2][0]
+            if a[0] == "ref" and a[1][0] == "arg" and a[1][1] == 1:
+                out[pk] = (ak[0], "ref")
+            elif a[0] == "arg" and a[1] == 1:
+                out[pk] = (ak[0], "val")
     return out
 
 
@@ -865,9 +879,10 @@ def canon_alias(F, v):
         return v
     al = call_aliases(F)
     if v[1] in al and len(v[2]) == 1:
+        anchor, mode = al[v[1]]
         a = v[2][0]
-        inner = a[1] if a[0] == "ref" else ("deref", a)
-        return ("call", al[v[1]], (inner,)) + tuple(v[3:])
+        inner = a if mode == "val" else (a[1] if a[0] == "ref" else ("deref", a))
+        return ("call", anchor, (inner,)) + tuple(v[3:])
     return v
 
 
